@@ -85,6 +85,10 @@ def handwritten(tier_quick: bool):
         # and every later sampling call raises as well
         dict(ops=[("next",), ("next",), ("append", C(2, 3)), ("next",), ("next",), ("append", C(4, 2)), ("all",)],
              init_cfgs=[I, C(1, 4)], K=2, needs_hist=(), chains=1, J=2),
+        # tuning and end-of-warm-up report an error in one chain only (the engine warns; every chain keeps what its own
+        # kernel returned); progress bars on
+        dict(ops=[("all",), ("append", C(4, 2)), ("next",)], init_cfgs=[I, C(1, 2), C(2, 4, 2), C(3, 2), C(4, 4)], K=2,
+             needs_hist=(2,), chains=3, J=2, tune_error_chains=(1,), show_progress=True, store_kernel_states=True),
         # first real epoch is posterior; J = 1; thinning that never keeps anything in a chunk
         dict(ops=[("append", I), ("append", C(4, 3, 3)), ("next",), ("next",), ("append", C(4, 2, 2)),
                   ("next",), ("append", C(4, 1)), ("all",)],
